@@ -220,6 +220,19 @@ def make_Select(source: ast.expr, selection: ast.expr):
     )
 
 
+class _LeaveCall(Exception):
+    """A lambda further down has to keep the name of a parameter (it can be called by keyword)
+    that a value about to be substituted into its body also uses: the called lambda that
+    brings the value in is left as a call."""
+
+
+def _by_position(node: ast.AST):
+    "Mark a lambda that is only ever called with positional arguments: its parameters are free to be renamed"
+    if isinstance(node, ast.Lambda):
+        node._called_by_position = True  # type: ignore
+    return node
+
+
 class FuncADLIndexError(Exception):
     """If we are doing an indexing operation and we are out of range, throw this."""
 
@@ -331,7 +344,7 @@ class simplify_chained_calls(FuncADLNodeTransformer):
             # Not `op(seq, function)`: an ordinary call, its parts are still simplified
             return self.generic_visit(node)
         source = args[0]
-        transform = args[1]
+        transform = _by_position(args[1])
 
         parent_select = self.visit(source)
         if not isinstance(transform, ast.Lambda):
@@ -413,7 +426,7 @@ class simplify_chained_calls(FuncADLNodeTransformer):
         if args is None:
             # Not `op(seq, function)`: an ordinary call, its parts are still simplified
             return self.generic_visit(node)
-        selection = args[1]
+        selection = _by_position(args[1])
         parent_select = self.visit(args[0])
         if not isinstance(selection, ast.Lambda):
             return function_call("SelectMany", [parent_select, self.visit(selection)])
@@ -520,7 +533,7 @@ class simplify_chained_calls(FuncADLNodeTransformer):
             # Not `op(seq, function)`: an ordinary call, its parts are still simplified
             return self.generic_visit(node)
         source = args[0]
-        filter = args[1]
+        filter = _by_position(args[1])
 
         parent_where = self.visit(source)
         if not isinstance(filter, ast.Lambda):
@@ -594,11 +607,29 @@ class simplify_chained_calls(FuncADLNodeTransformer):
             f_args = func.args
             new_names = [a.arg for a in f_args.posonlyargs + f_args.args + f_args.kwonlyargs]
 
-            with stack_frame(self._arg_stack):
-                for old_name, new_name in zip(old_names, new_names):
-                    self._arg_stack.define_name(new_name, bound[old_name])
-                # Now, evaluate the expression, and then lift it.
-                return self.visit(func.body)
+            try:
+                with stack_frame(self._arg_stack):
+                    for old_name, new_name in zip(old_names, new_names):
+                        self._arg_stack.define_name(new_name, bound[old_name])
+                    # Now, evaluate the expression, and then lift it.
+                    return self.visit(func.body)
+            except _LeaveCall:
+                # Nothing is substituted: the call stays, every parameter given by position.
+                keep = ast.Lambda(
+                    args=ast.arguments(
+                        posonlyargs=[],
+                        args=[ast.arg(arg=n) for n in old_names],
+                        kwonlyargs=[],
+                        kw_defaults=[],
+                        defaults=[],
+                    ),
+                    body=copy.deepcopy(call_node.func.body),
+                )
+                return ast.Call(
+                    func=self.visit(_by_position(keep)),
+                    args=[bound[n] for n in old_names],
+                    keywords=[],
+                )
         elif _is_method_call_on_first(call_node):
             return self.select_method_call_on_first(call_node)
         elif isinstance(call_node.func, ast.Attribute):
@@ -614,12 +645,17 @@ class simplify_chained_calls(FuncADLNodeTransformer):
                     method = found
             return ast.Call(
                 func=method,
-                args=[self.visit(a) for a in call_node.args],
+                args=[self.visit(_by_position(a)) for a in call_node.args],
                 keywords=[
                     ast.keyword(arg=k.arg, value=self.visit(k.value)) for k in call_node.keywords
                 ],
             )
         else:
+            if isinstance(call_node.func, ast.Name):
+                for a in call_node.args:
+                    _by_position(a)
+            elif type(call_node.func) is ast.Lambda and len(call_node.keywords) == 0:
+                _by_position(call_node.func)
             return FuncADLNodeTransformer.visit_Call(self, call_node)
 
     def visit_Subscript_Tuple(self, v: ast.Tuple, s: ast.expr):
@@ -732,6 +768,13 @@ class simplify_chained_calls(FuncADLNodeTransformer):
         renamable = [a.arg for a in l_args.posonlyargs + l_args.args] + [
             a.arg for a in (l_args.vararg, l_args.kwarg) if a is not None
         ]
+        if any(a.arg in names_in_substitutions for a in l_args.kwonlyargs) or (
+            any(name in names_in_substitutions for name in renamable)
+            and not getattr(node, "_called_by_position", False)
+        ):
+            # The parameter has to keep its name: nothing that mentions the name can be
+            # substituted below.
+            raise _LeaveCall()
         if any(name in names_in_substitutions for name in renamable):
             # Rename in the lambda itself, before anything is substituted: what gets
             # substituted can be visited again and must not be touched by the renaming.
